@@ -124,7 +124,7 @@ def call_module(run, path, args, kwargs, node):
         return SNum(r)
     if name in ('numpy.exp', 'numpy.log', 'numpy.floor'):
         f = {'numpy.exp': EXP, 'numpy.log': LOG, 'numpy.floor': FLOOR}[name]
-        return SNum(f(args[0].real()))
+        return SNum(f(args[0].real()), np=z3.BoolVal(True), fin=args[0].fin if args[0].fin is not None else z3.BoolVal(True))
     if name == 'numpy.random.permutation':
         return np_permutation(run, args[0])
     if name == 'numpy.random.normal':
@@ -144,6 +144,10 @@ def call_module(run, path, args, kwargs, node):
         return sqrt(run, a)
     if name in ('warnings.warn', 'warnings.filterwarnings'):
         return NONE
+    if name == 'collections.deque':
+        if args or kwargs:
+            raise sx.Unsupported("deque with arguments")
+        return sx.PyList([])
     if name == 'tqdm.tqdm':
         return args[0]
     if name in ('numpy.nan', 'numpy.NaN'):
@@ -573,6 +577,10 @@ def call_method(run, recv, name, args, kwargs, node):
         if name == 'append':
             v = pack(args[0], lt.e)
             n = recv.n
+            mir = getattr(recv, 'mirror', None)
+            if mir is not None:
+                g, gv = mir
+                g.set(g.typ.mk(g.n + 1, z3.Store(g.arr, g.n, gv)))
             if lt.e is TNum:
                 run.assume(*lemmas.ssum_store_last(recv.arr, n, v), *lemmas.ssum_snoc(z3.Store(recv.arr, n, v), n))
             recv.set(lt.mk(n + 1, z3.Store(recv.arr, n, v)))
@@ -587,6 +595,15 @@ def call_method(run, recv, name, args, kwargs, node):
                        sym.forall([i], z3.Implies(z3.And(i >= 0, i < old_n - 1), new.arr[i] == old_arr[i + 1]),
                                  [new.arr[i]]))
             recv.set(new.get())
+            mir = getattr(recv, 'mirror', None)
+            if mir is not None:
+                g, gv = mir
+                g_old_arr, g_old_n = g.arr, g.n
+                gnew = run.fresh(g.typ, 'gshift')
+                run.assume(gnew.n == g_old_n - 1,
+                           sym.forall([i], z3.Implies(z3.And(i >= 0, i < g_old_n - 1), gnew.arr[i] == g_old_arr[i + 1]),
+                                      [gnew.arr[i]]))
+                g.set(gnew.get())
             return first
         if name == 'copy':
             return SList(lt, recv.get())
